@@ -25,6 +25,12 @@ model/LeapfrogQc.vos model/LeapfrogQc.vok model/LeapfrogQc.required_vos: model/L
 model/Protocol.vo model/Protocol.glob model/Protocol.v.beautified model/Protocol.required_vo: model/Protocol.v 
 model/Protocol.vio: model/Protocol.v 
 model/Protocol.vos model/Protocol.vok model/Protocol.required_vos: model/Protocol.v 
+model/StepSize.vo model/StepSize.glob model/StepSize.v.beautified model/StepSize.required_vo: model/StepSize.v 
+model/StepSize.vio: model/StepSize.v 
+model/StepSize.vos model/StepSize.vok model/StepSize.required_vos: model/StepSize.v 
+model/Estimator.vo model/Estimator.glob model/Estimator.v.beautified model/Estimator.required_vo: model/Estimator.v lib/Fp.vo
+model/Estimator.vio: model/Estimator.v lib/Fp.vio
+model/Estimator.vos model/Estimator.vok model/Estimator.required_vos: model/Estimator.v lib/Fp.vos
 proofs/Schedule_facts.vo proofs/Schedule_facts.glob proofs/Schedule_facts.v.beautified proofs/Schedule_facts.required_vo: proofs/Schedule_facts.v lib/Fp.vo model/Schedule.vo
 proofs/Schedule_facts.vio: proofs/Schedule_facts.v lib/Fp.vio model/Schedule.vio
 proofs/Schedule_facts.vos proofs/Schedule_facts.vok proofs/Schedule_facts.required_vos: proofs/Schedule_facts.v lib/Fp.vos model/Schedule.vos
@@ -70,3 +76,9 @@ Properties/C12.vos Properties/C12.vok Properties/C12.required_vos: Properties/C1
 Properties/C13.vo Properties/C13.glob Properties/C13.v.beautified Properties/C13.required_vo: Properties/C13.v model/Protocol.vo
 Properties/C13.vio: Properties/C13.v model/Protocol.vio
 Properties/C13.vos Properties/C13.vok Properties/C13.required_vos: Properties/C13.v model/Protocol.vos
+Properties/C07.vo Properties/C07.glob Properties/C07.v.beautified Properties/C07.required_vo: Properties/C07.v lib/Fp.vo model/DualAvg.vo model/StepSize.vo
+Properties/C07.vio: Properties/C07.v lib/Fp.vio model/DualAvg.vio model/StepSize.vio
+Properties/C07.vos Properties/C07.vok Properties/C07.required_vos: Properties/C07.v lib/Fp.vos model/DualAvg.vos model/StepSize.vos
+Properties/C08.vo Properties/C08.glob Properties/C08.v.beautified Properties/C08.required_vo: Properties/C08.v lib/Fp.vo model/Estimator.vo
+Properties/C08.vio: Properties/C08.v lib/Fp.vio model/Estimator.vio
+Properties/C08.vos Properties/C08.vok Properties/C08.required_vos: Properties/C08.v lib/Fp.vos model/Estimator.vos
